@@ -124,10 +124,18 @@ class Prop(core.Prop):
                     yield {'time': True, 'unit': unit, 'desc': desc, 'tz': tzkind}
                 # a 365-day calendar declared on the time VARIABLE, queries after the leap day it lacks
                 yield {'time': True, 'unit': unit, 'desc': desc, 'tz': 'utc', 'calendar': 'noleap'}
+        # reference instants with minutes and seconds; units down to seconds; exact look-up of the record times
+        for unit in ('hours', 'days', 'minutes', 'seconds'):
+            for desc in (False, True):
+                for refsec in (0, 30, 450):
+                    if unit in ('hours', 'days') and refsec == 0:
+                        continue
+                    for tzkind in ('utc', 'naive'):
+                        yield {'time': True, 'unit': unit, 'desc': desc, 'tz': tzkind, 'refsec': refsec}
 
     def expand(self, group):
         if group.get('time'):
-            for method in ('nearest', 'bounds'):
+            for method in ('nearest', 'bounds') + (('exact',) if 'refsec' in group else ()):
                 yield dict(group, method=method)
             return
         for method in METHODS:
@@ -320,8 +328,13 @@ class Prop(core.Prop):
         tv[:] = vals
         tv.units = '%s since 2000-02-28 12:00:00+0000' % unit
         ref = datetime.datetime(2000, 2, 28, 12, tzinfo=datetime.timezone.utc)
+        if case.get('refsec'):
+            ref = ref + datetime.timedelta(seconds=case['refsec'])
+            tv.units = '%s since %s+0000' % (unit, ref.strftime('%Y-%m-%d %H:%M:%S'))
         step = datetime.timedelta(**{unit: 1})
         qnum = [0., 1., 2.9, 3.1, 6., 9., 11., 21., 29., 30.]
+        if method == 'exact':
+            qnum = [0., 6., 12., 30.]
         qdt = [ref + q * step for q in qnum]
         if case.get('calendar'):
             tv.calendar = case['calendar']
@@ -342,9 +355,9 @@ class Prop(core.Prop):
         c = vals.tolist()
         e = edges_for(c)
         scope = dict(method=method, rep='none', direction='desc' if desc else 'asc', tz=tz, unit=unit,
-                     front='time2idx', calendar=case.get('calendar') or 'standard')
+                     front='time2idx', calendar=case.get('calendar') or 'standard', refsec=case.get('refsec', 0))
         sig = ('time2idx', method, scope['direction'], tz)
-        st = [h64('c16t', unit, desc, tz, case.get('calendar'))]
+        st = [h64('c16t', unit, desc, tz, case.get('calendar'), case.get('refsec'))]
         self.warned[:] = []
         vs = []
         try:
@@ -363,5 +376,5 @@ class Prop(core.Prop):
         if bad:
             vs.append(viol('wrong-cell', sig, 'time coordinate %s: value %r -> %r expected %r (%d wrong)'
                            % (c, bad[0][0], bad[0][1], bad[0][2], len(bad)), **scope))
-        return result('viol' if vs else 'ok-time', vs, st, 1, h64('c16t', unit, desc, tz, method, case.get('calendar')),
+        return result('viol' if vs else 'ok-time', vs, st, 1, h64('c16t', unit, desc, tz, method, case.get('calendar'), case.get('refsec')),
                       h64(got.tolist()) if not vs else None)
